@@ -209,6 +209,10 @@ func validateFn(s0 *session) func(ctx context.Context, database, username, passw
 		switch {
 		case strings.HasPrefix(password, "ok"):
 			return ctx, true, nil
+		case strings.HasPrefix(password, "failok"):
+			// e.g. the comparison succeeded but the account store / audit log could not be reached:
+			// the outcome of the comparison is reported together with the error
+			return ctx, true, errors.New("verif: validator failed")
 		case strings.HasPrefix(password, "faileof"):
 			// e.g. a user directory that lost its backend connection
 			return ctx, false, fmt.Errorf("verif: validator backend: %w", io.EOF)
